@@ -86,3 +86,128 @@ def _prime_ge(p):
 @lemma("prime_mul_nonzero", 3, True, "p prime, p divides neither a nor b => p does not divide a*b (Euclid)")
 def _euclid(a, b, p):
     return z3.Implies(z3.And(isprime(p), a % p != 0, b % p != 0), (a * b) % p != 0)
+
+
+# ---- the curve group as an abstract abelian group with a subgroup of prime order L --------------------------------
+# (Lean: lean/SpakeTheory/EdGroup.lean proves E1..E8 for any AddCommGroup and prime L; that (E(F_Q), +) IS such a
+#  group - associativity of the Edwards law and #E = 8L - is the cited assumption M-edgroup, T2)
+def _ed():
+    from . import spec_ed as E
+    return E
+
+
+@lemma("ed_mul_zero", 1, True, "0*P = O")
+def _e1(P):
+    E = _ed()
+    return E.f_mul(sym.IV(0), P) == E.c_O
+
+
+@lemma("ed_mul_step", 2, True, "n>=1: n*P = 2*((n div 2)*P) [+ P if n odd]")
+def _e2(n, P):
+    E = _ed()
+    h = E.f_mul(n / 2, P)
+    dbl = E.f_add(h, h)
+    return z3.Implies(n >= 1, E.f_mul(n, P) == z3.If(n % 2 == 1, E.f_add(dbl, P), dbl))
+
+
+@lemma("ed_mul_mod", 2, True, "L*P = O  =>  (n mod L)*P = n*P")
+def _e3(n, P):
+    E = _ed()
+    return z3.Implies(E.f_insub(P), E.f_mul(n % E.L, P) == E.f_mul(n, P))
+
+
+@lemma("ed_insub_def", 1, True, "insub(P) <=> L*P = O")
+def _e4(P):
+    E = _ed()
+    return E.f_insub(P) == (E.f_mul(sym.IV(E.L), P) == E.c_O)
+
+
+@lemma("ed_insub_add", 2, True, "the L-torsion is closed under addition")
+def _e4b(P, R):
+    E = _ed()
+    return z3.Implies(z3.And(E.f_insub(P), E.f_insub(R)), E.f_insub(E.f_add(P, R)))
+
+
+@lemma("ed_insub_mul", 2, True, "the L-torsion is closed under scalar multiplication")
+def _e4c(n, P):
+    E = _ed()
+    return z3.Implies(E.f_insub(P), E.f_insub(E.f_mul(n, P)))
+
+
+@lemma("ed_insub_O", 0, True, "L*O = O")
+def _e4d():
+    E = _ed()
+    return E.f_insub(E.c_O)
+
+
+@lemma("ed_prime_order", 2, True, "L prime, L*P = O, P != O, L does not divide n  =>  n*P != O")
+def _e5(n, P):
+    E = _ed()
+    return z3.Implies(z3.And(E.f_insub(P), P != E.c_O, n % E.L != 0), E.f_mul(n, P) != E.c_O)
+
+
+@lemma("ed_ladder_diff", 2, False, "P of order L, 0 <= 2k+1 < L  =>  (2k*P) - P is none of the 4 points of order 1,2,4 (needs: points of order 2,4 are not L-torsion)")
+def _e6(k, P):
+    E = _ed()
+    h = E.f_mul(k, P)
+    return z3.Implies(z3.And(E.f_insub(P), P != E.c_O, k >= 0, 2 * k + 1 < E.L), E.f_diffok(E.f_add(h, h), P))
+
+
+@lemma("ed_add_zero", 1, True, "O + P = P + O = P")
+def _e7(P):
+    E = _ed()
+    return z3.And(E.f_add(E.c_O, P) == P, E.f_add(P, E.c_O) == P)
+
+
+@lemma("ed_add_comm", 2, True, "P + R = R + P")
+def _e7b(P, R):
+    E = _ed()
+    return E.f_add(P, R) == E.f_add(R, P)
+
+
+@lemma("ed_neg_mul", 1, True, "L*P = O  =>  (L-1)*P = -P")
+def _e8(P):
+    E = _ed()
+    return z3.Implies(E.f_insub(P), E.f_mul(sym.IV(E.L - 1), P) == E.f_neg(P))
+
+
+@lemma("ed_neg_def", 1, True, "P + (-P) = O, (-1)*P = -P")
+def _e8b(P):
+    E = _ed()
+    return z3.And(E.f_add(P, E.f_neg(P)) == E.c_O, E.f_mul(sym.IV(-1), P) == E.f_neg(P))
+
+
+@lemma("ed_mul_one", 1, True, "1*P = P")
+def _e9(P):
+    E = _ed()
+    return E.f_mul(sym.IV(1), P) == P
+
+
+@lemma("ed_mul_mul", 3, True, "m*(n*P) = (m*n)*P")
+def _e10(m, n, P):
+    E = _ed()
+    return E.f_mul(m, E.f_mul(n, P)) == E.f_mul(m * n, P)
+
+
+@lemma("ed_mul_O", 1, True, "n*O = O")
+def _e11(n):
+    E = _ed()
+    return E.f_mul(n, E.c_O) == E.c_O
+
+
+@lemma("ed_neg_O", 0, True, "-O = O")
+def _e12():
+    E = _ed()
+    return E.f_neg(E.c_O) == E.c_O
+
+
+@lemma("ed_insub_neg", 1, True, "the L-torsion is closed under negation")
+def _e13(P):
+    E = _ed()
+    return z3.Implies(E.f_insub(P), z3.And(E.f_insub(E.f_neg(P)), (E.f_neg(P) == E.c_O) == (P == E.c_O)))
+
+
+@lemma("ed_cofactor", 1, False, "M-edgroup (T2, cited): #E(F_Q) = 8L, hence L*(8*P) = O for every curve point P")
+def _e14(P):
+    E = _ed()
+    return E.f_mul(sym.IV(E.L), E.f_mul(sym.IV(8), P)) == E.c_O
